@@ -231,7 +231,7 @@ PROPS = {
     'C18': {
         'level': 'other',
         'explanation': (
-            "Decides four clauses: (1) type casts (bool, int, decimal, str, date; 16 overloads) return the "
+            "Decides five clauses: (1) type casts (bool, int, decimal, str, date; 16 overloads) return the "
             "converted value or NULL and never raise - abstract interpretation of each cast body for every operand type "
             "it admits (untyped operands range over all announceable dtypes), with edge samples (NaN, Infinity, huge "
             "ints, malformed strings) for the conversion primitives; every exception a primitive can raise must be "
@@ -244,11 +244,14 @@ PROPS = {
             "(order entailment over the path's comparisons, loops unrolled three times, positive stride assumed as the "
             "function's own guard does); for day strides the arithmetic is interpreted exactly over linear forms in "
             "D = source - origin, S and S*floor(D/S) in the five sign / divisibility cases of D and the offset must be "
-            "S*floor(D/S) in each (R-BINFLOOR). NOT decided (equalities over run-time values, outside static reach): the "
-            "other calendar laws (monotonicity, idempotence, inverse pairs), regex results, decimal arithmetic; an "
-            "off-by-one applied consistently to all siblings has the same shape as the correct code."),
+            "S*floor(D/S) in each (R-BINFLOOR); (5) date_trunc, date_part and quarter equal their calendar definition for "
+            "every unit: the integer arithmetic over year / month is normalised exactly (atoms year, month, "
+            "floor((field - a)/p)) and compared with the first day / the number of the unit that starts at fields "
+            "congruent to a modulo p (decade 0/10, century 1/100, millennium 1/1000, quarter 1/3) - so an off-by-one applied "
+            "consistently to all siblings is rejected as well (R-TRUNCLAW, 14 unit cases). NOT decided (equalities over run-time values, outside static reach): the "
+            "inverse pairs (date_add / date_diff), ISO week numbers, regex results, decimal arithmetic."),
         'assumptions': TRUSTED_ABSINT[:1],
-        'quick': [lib.rule_casttotal, lib.rule_calsib, sxl.rule_defn, sxdb.rule_binfloor],
+        'quick': [lib.rule_casttotal, lib.rule_calsib, sxl.rule_defn, sxdb.rule_binfloor, sxdb.rule_trunclaw],
         'thorough': [],
     },
     'C20': {
